@@ -262,7 +262,13 @@ class Impl:
 
     def render(self, src, safeMode=None, htmlReplacement=None, reset=None, callback=False, abort=False):
         msgs = []
-        cb = (lambda msg: msgs.append(msg.text)) if callback else None
+        # the list of the call in progress: a callback that an *earlier* call installed and that is still invoked now shows
+        # up in this call's messages, marked (a call without a callback must not report through anybody else's)
+        self._current = msgs
+
+        def deliver(msg, mine=msgs):
+            self._current.append(msg.text if mine is self._current else 'STALE-CALLBACK: ' + msg.text)
+        cb = deliver if callback else None
         if abort:
             # a caller that gives up at the first diagnostic: its callback raises, the render call is abandoned where it stands
             class Abort(Exception):
